@@ -355,7 +355,8 @@ class World(object):
                     src = ed.transition.source
                     sep = getattr(getattr(ed.machine, 'state_cls', None), 'separator', None)
                     last = src.split(sep)[-1] if (sep and isinstance(src, str)) else src
-                    if last != ed.state.name:
+                    sname = ed.state.name       # carries the enclosing path while the state's own callbacks run
+                    if last != (sname.split(sep)[-1] if (sep and isinstance(sname, str)) else sname):
                         arg = [1, 997]
             else:
                 tok = args[0] if len(args) == 1 and isinstance(args[0], Token) else None
